@@ -789,9 +789,17 @@ def literal_not_resolved(ctx: Ctx, rule):
                 dom = g.dominators(labels_excluded=("exc",))
                 for i in dom.get(nd.id, set()):
                     t = g.nodes[i]
-                    if t.kind == "test" and isinstance(t.stmt.test, ast.Call) and call_name(t.stmt.test) == "isinstance" and len(t.stmt.test.args) == 2 and norm(t.stmt.test.args[0]) == a.id and "QualifiedName" in norm(t.stmt.test.args[1]) and "str" not in norm(t.stmt.test.args[1]):
-                        # on the true edge of that test
-                        ok = any(lab == "true" and (m is nd or g.exists_path(m, nd) or m.id == nd.id) for m, lab in t.succ)
+                    if t.kind != "test":
+                        continue
+                    tt, negated = t.stmt.test, False
+                    if isinstance(tt, ast.UnaryOp) and isinstance(tt.op, ast.Not):
+                        tt, negated = tt.operand, True
+                    if isinstance(tt, ast.Call) and call_name(tt) == "isinstance" and len(tt.args) == 2 and norm(tt.args[0]) == a.id and "QualifiedName" in norm(tt.args[1]) and "str" not in norm(tt.args[1]):
+                        # the call is reached only along the edge on which the value *is* a QualifiedName
+                        pos = "false" if negated else "true"
+                        others = [m for m, lab in t.succ if lab in ("true", "false") and lab != pos]
+                        if not any(m is nd or g.exists_path(m, nd, avoid=lambda x, t=t: x is t) for m in others):
+                            ok = True
             res.ob("%s: %s resolves a value known to be a QualifiedName object: %s" % (short(q2), norm(c)[:50], ok))
             if not ok:
                 res.fail(rule.id, "literal-resolved-against-scope::%s" % norm(a)[:30], ctx.loc(q2, c),
@@ -840,3 +848,20 @@ for _p, _r, _d in (("C01", "C01.R14", "the JSON text declares every prefix it us
                    ("C05", "C05.R13", "a stored Literal's datatype is a name of the record's own container"), ("C06", "C06.R13", "every prefix printed in PROV-N is declared"),
                    ("C10", "C10.R14", "an independent reader can resolve the datatype of every literal")):
     RULES.setdefault(_p, []).append(Rule(_r, "the datatype of a Literal that stays a Literal is homed in the container like any other qualified name", 1, literal_datatype_homed, "F-OWN", _d))
+
+
+# C05.R2 reasons about paths inside the normaliser (guard -> raise / store): show it ProvRecord with the private helpers of
+# add_attributes inlined (sa/inline.py); the literal converter stays a call (other rules are anchored on it, and it is recursive)
+def _with_inlined_record(fn):
+    def run(ctx, rule):
+        from ..inline import inlined_view
+
+        return fn(inlined_view(ctx, M + ".ProvRecord", exclude=frozenset({"_auto_literal_conversion"})), rule)
+
+    run.__name__ = getattr(fn, "__name__", "rule")
+    return run
+
+
+for _r in RULES.get("C05", []):
+    if _r.id == "C05.R2":
+        _r.fn = _with_inlined_record(_r.fn)
